@@ -97,36 +97,37 @@ def is_open(key):
     return any(driver.key_matches(p, key) for p in OPEN_PATTERNS)
 
 
-def group_cp_keys(prefix, items, limit=12):
-    """items: [(cp, case, detail)] failing the same sub-check.  One key per code
-    point while there are few; by 256-block when there are many (keys stay
-    derived from the input, not from counts).  Code points whose individual key
-    is an open known finding always keep their individual key."""
-    out = []
-    rest = []
-    for cp, case, detail in sorted(items, key=lambda t: t[0]):
-        k = "%s:%s" % (prefix, u(cp))
-        if is_open(k):
-            out.append((k, case, detail, 1))
+KEY_CP_RE = re.compile(r"(C17:[A-Za-z_]+:[a-z0-9-]+):(U\+[0-9A-F]{4,6})(\+U\+[0-9A-F]{4,6})?$")
+
+
+def regroup(F, limit=12):
+    """Per-code-point (and per-pair) keys are kept while a sub-check has few of
+    them; when one sub-check fails for many inputs they are merged by 256-block of
+    the (first) code point, or into one key when many blocks are hit.  Keys stay a
+    function of the failing inputs.  Keys that are open known findings are never merged."""
+    fam = collections.defaultdict(list)
+    for key in F.by_key:
+        m = KEY_CP_RE.match(key)
+        if m and not is_open(key):
+            fam[m.group(1)].append((int(m.group(2)[2:], 16), key))
+    for prefix, ks in fam.items():
+        if len(ks) <= limit:
+            continue
+        ks.sort()
+        blocks = collections.OrderedDict()
+        for cp, key in ks:
+            blocks.setdefault(cp >> 8, []).append((cp, key))
+        if len(blocks) > limit:
+            groups = {"%s:many-blocks" % prefix: ks}
         else:
-            rest.append((cp, case, detail))
-    if len(rest) <= limit:
-        out += [("%s:%s" % (prefix, u(cp)), case, detail, 1) for cp, case, detail in rest]
-        return out
-    blocks = collections.OrderedDict()
-    for cp, case, detail in rest:
-        blocks.setdefault(cp >> 8, []).append((cp, case, detail))
-    if len(blocks) > limit:
-        cps = [cp for cp, _, _ in rest]
-        out.append(("%s:many-blocks" % prefix, rest[0][1],
-                    "%d code points in %d blocks fail, e.g. %s; first: %s"
-                    % (len(rest), len(blocks), " ".join(u(c) for c in cps[:12]), rest[0][2]), len(rest)))
-        return out
-    for b, l in blocks.items():
-        out.append(("%s:block-U+%02Xxx" % (prefix, b), l[0][1],
-                    "%d code points of the block fail (%s%s); first: %s"
-                    % (len(l), " ".join(u(c) for c, _, _ in l[:10]), " ..." if len(l) > 10 else "", l[0][2]), len(l)))
-    return out
+            groups = {"%s:block-U+%02Xxx" % (prefix, b): l for b, l in blocks.items()}
+        for nk, l in groups.items():
+            ents = [F.by_key.pop(k) for _, k in l]
+            first = next((e for e in ents if e["case"] is not None), ents[0])
+            F.by_key[nk] = dict(case=first["case"], part=first["part"], count=sum(e["count"] for e in ents),
+                                detail="%d inputs of this class fail (%s%s); first: %s"
+                                % (len(l), " ".join(k.rsplit(":", 1)[1] for _, k in l[:8]), " ..." if len(l) > 8 else "",
+                                   first["detail"]))
 
 
 def attributed(cps, mode="NFD"):
@@ -196,25 +197,13 @@ def part1(pool, F, cov):
     # NFD mismatches first: they are the root cause of the NFC failure of the same code point
     order = sorted(by, key=lambda k: (k != ("NFD", "mismatch"), k))
     for (mode, vk) in order:
-        own = []
+        sub = "%s-single" % mode.lower() + ("" if vk == "mismatch" else "-" + vk)
         for cp, case, d in by[(mode, vk)]:
             k = BAD_DECOMP.get(("NFD", cp)) if (mode, vk) != ("NFD", "mismatch") else None
-            if k:
-                F.add(k, case, d, 1)
-            else:
-                own.append((cp, case, d))
-        sub = "%s-single" % mode.lower() + ("" if vk == "mismatch" else "-" + vk)
-        prefix = "C17:wcsnorm_s:" + sub
-        groups = group_cp_keys(prefix, own)
-        for key, case, detail, n in groups:
-            F.add(key, case, detail, 1, n)
-        for cp, case, d in own:
-            k = "%s:%s" % (prefix, u(cp))
-            if k not in F.by_key:
-                k = "%s:block-U+%02Xxx" % (prefix, cp >> 8)
-                if k not in F.by_key:
-                    k = "%s:many-blocks" % prefix
-            BAD_DECOMP.setdefault((mode, cp), k)
+            if not k:
+                k = "C17:wcsnorm_s:%s:%s" % (sub, u(cp))
+                BAD_DECOMP.setdefault((mode, cp), k)
+            F.add(k, case, d, 1)
     cov["parts"]["1_single_codepoints"] = dict(
         code_points=len(T["assigned"]), evaluations=sum(r["evals"] for r in res),
         nontrivial=sum(r["nontrivial"] for r in res), failing_evaluations=len(fails),
@@ -279,17 +268,6 @@ def part2(pool, F, cov, tier):
     bykey = collections.OrderedDict()
     for label, mode, vk, cps, d in fails:
         bykey.setdefault(seq_key(mode, vk, cps), []).append((cps, norm_case(cps, mode), d))
-    # many failing pairs of one sub-check: group them by the block of the starter
-    pairkeys = collections.defaultdict(list)
-    for k in bykey:
-        m = re.match(r"(C17:wcsnorm_s:[a-z]+-pair[a-z-]*):U\+", k)
-        if m and not is_open(k):
-            pairkeys[m.group(1)].append(k)
-    for prefix, ks in pairkeys.items():
-        if len(ks) > 12:
-            for k in ks:
-                items = bykey.pop(k)
-                bykey.setdefault("%s:block-U+%02Xxx" % (prefix, items[0][0][0] >> 8), []).extend(items)
     for k, items in bykey.items():
         F.add(k, items[0][1], items[0][2] + ("" if len(items) == 1 else " (+%d more strings of this class)" % (len(items) - 1)),
               2, len(items))
@@ -534,8 +512,8 @@ def part4(pool, F, cov):
             fn, sub = "towfc_s", vk.replace("towfc-", "")
         by[(fn, sub)].append((cp, case, d))
     for (fn, sub), items in sorted(by.items()):
-        for key, case, detail, n in group_cp_keys("C17:%s:%s" % (fn, sub), items):
-            F.add(key, case, detail, 4, n)
+        for cp, case, d in items:
+            F.add("C17:%s:%s:%s" % (fn, sub, u(cp)), case, d, 4)
     hist = collections.Counter()
     for h in pool.map(w_part4_hist, ranges[::8]):  # every 8th range: informational only
         hist.update(h)
@@ -697,6 +675,7 @@ def main():
         timed("part5", lambda: part5(F, cov))
 
     # ---------------------------------------------------------------- triage
+    regroup(F)
     lines, viol_lines = [], []
     nviol = 0
     known_hits = {}
@@ -713,18 +692,21 @@ def main():
             lines.append("KNOWN-FINDING: property=%s %s (hits this run: %d)" % (PROP, e["text"], hit))
     max_new = int(os.environ.get("VERIF_MAX_NEW", "25"))
     new_keys = []
-    for i, (key, ent) in enumerate(new):
-        if ent["case"] is None:
-            # only counted inside workers, never materialised (cannot happen for unknown keys)
-            continue
-        path = save_replay(key, ent)
+    new = [(k, e) for k, e in new if e["case"] is not None]  # (case None: open/attributed keys only counted)
+    paths = [save_replay(key, ent) for key, ent in new]
+    from concurrent.futures import ThreadPoolExecutor
+    with ThreadPoolExecutor(8) as ex:  # each new finding is replayed 3 times from its file
+        futs = [[ex.submit(replay_subprocess, p) for _ in range(3)] for p in paths[:max_new]]
+        bads = [sum(1 for f in fl if f.result()[0] == 1) for fl in futs]
+    for i, ((key, ent), path) in enumerate(zip(new, paths)):
         if i >= max_new:
             viol_lines.append("VIOLATION property=%s replay=%s" % (PROP, path))
-            viol_lines.append("  key=%s %s (not re-run: more than %d distinct new keys)" % (key, ent["detail"][:300], max_new))
+            viol_lines.append("  key=%s hits=%d %s (not re-run: more than %d distinct new keys)"
+                              % (key, ent["count"], ent["detail"][:300], max_new))
             nviol += 1
             new_keys.append(key)
             continue
-        bad = sum(1 for _ in range(3) if replay_subprocess(path)[0] == 1)
+        bad = bads[i]
         if bad == 0:
             lines.append("UNREPRODUCED: property=%s key=%s (0 of 3 replays failed) file=%s" % (PROP, key, path))
             continue
